@@ -62,6 +62,7 @@ def lookup_steps(stmts):
 
 def translate():
     tree, _ = parse_file("textx/metamodel.py")
+    ltree, _ = parse_file("textx/lang.py")
 
     # ---- __getitem__
     gi = body_of(find_func(tree, "__getitem__", CLS))
@@ -88,9 +89,14 @@ def translate():
     texts = [ast.unparse(s) for s in ni]
     need(len(texts) >= 6 and texts[0].startswith("assert self.root_path is not None"), "_new_import: head changed")
     need(texts[1] == "current_namespace = self._namespace_stack[-1]", "_new_import: current namespace changed")
-    need(texts[2] == ("if '.' in current_namespace:\n"
-                      "    root_namespace = current_namespace.rsplit('.', 1)[0]\n"
-                      "    import_name = f'{root_namespace}.{import_name}'"), "_new_import: relative import name changed:\n" + texts[2])
+    rel_body = ("\n    root_namespace = current_namespace.rsplit('.', 1)[0]\n"
+                "    import_name = f'{root_namespace}.{import_name}'")
+    if texts[2] == "if current_namespace != self._main_namespace and '.' in current_namespace:" + rel_body:
+        main_in_root = True       # the main grammar's folder is the root whatever its file name is
+    elif texts[2] == "if '.' in current_namespace:" + rel_body:
+        main_in_root = False
+    else:
+        raise TranslateError("_new_import: relative import name changed:\n" + texts[2])
     i = 3
     normalise = False
     if texts[i] == "import_name = '.'.join((part for part in import_name.split('.') if part))":
@@ -103,18 +109,29 @@ def translate():
     need(isinstance(guard, ast.If) and ast.unparse(guard.test) == "import_name not in self.namespaces" and not guard.orelse,
          "_new_import: load-once guard changed")
     gb = [ast.unparse(s) for s in guard.body]
-    load_body = ["self._enter_namespace(import_name)",
-                 "if self.debug:\n    self.dprint(f'*** IMPORTING FILE: {import_file_name}')",
-                 "metamodel_from_file(import_file_name, metamodel=self)",
-                 "self._leave_namespace()"]
     reg = "self._imported_namespaces[current_namespace].append(self.namespaces[import_name])"
     rest = texts[i + 1:]
-    if gb == load_body and rest == [reg]:
+    # the nested load and the namespace stack discipline around it, as an operation list
+    ops_of = {"self._enter_namespace(import_name)": "NEnter",
+              "metamodel_from_file(import_file_name, metamodel=self)": "NLoad",
+              "self._leave_namespace()": "NLeave"}
+    nested_ops = []
+    reg_inside = False
+    for k, g in enumerate(gb):
+        if g == "if self.debug:\n    self.dprint(f'*** IMPORTING FILE: {import_file_name}')":
+            continue
+        if g == reg and k == len(gb) - 1:
+            reg_inside = True
+            continue
+        need(g in ops_of, "_new_import: unrecognised statement in the load-once branch: " + g)
+        nested_ops.append(ops_of[g])
+    need(nested_ops.count("NLoad") == 1, "_new_import: the imported file is not loaded exactly once in the load-once branch")
+    if not reg_inside and rest == [reg]:
         always = True
-    elif gb == load_body + [reg] and rest == []:
+    elif reg_inside and rest == []:
         always = False
     else:
-        raise TranslateError("_new_import: loading / registration of the import changed:\n" + "\n".join(gb + ["--"] + rest))
+        raise TranslateError("_new_import: registration of the import changed:\n" + "\n".join(gb + ["--"] + rest))
 
     # ---- _enter_namespace: the import list a new namespace starts with
     en = body_of(find_func(tree, "_enter_namespace", CLS))
@@ -171,17 +188,24 @@ def translate():
     pos = [ic.index(w) if w in ic else -1 for w in want]
     need(-1 not in pos and pos == sorted(pos) and pos[2] == pos[0] + 2, "_init_class: namespace registration changed")
     init = [ast.unparse(s) for s in body_of(find_func(tree, "__init__", CLS))]
+    if main_in_root:
+        need("self._main_namespace = self._namespace_for_file_name(file_name)" in init, "__init__: _main_namespace is not the main grammar's namespace")
+        enter_main = "self._enter_namespace(self._main_namespace)"
+        need(init.index("self._main_namespace = self._namespace_for_file_name(file_name)") < init.index(enter_main) if enter_main in init else False,
+             "__init__: main namespace set-up changed")
+    else:
+        enter_main = "self._enter_namespace(self._namespace_for_file_name(file_name))"
     for w in ("self.namespaces = {}", "self._namespace_stack = []", "self._imported_namespaces = {}",
-              "self._enter_namespace('__base__')", "self._leave_namespace()",
-              "self._enter_namespace(self._namespace_for_file_name(file_name))"):
+              "self._enter_namespace('__base__')", "self._leave_namespace()", enter_main):
         need(w in init, "__init__: missing " + w)
-    need(init.index("self._enter_namespace('__base__')") < init.index("self._leave_namespace()")
-         < init.index("self._enter_namespace(self._namespace_for_file_name(file_name))"), "__init__: namespace set-up order changed")
+    need(init.index("self._enter_namespace('__base__')") < init.index("self._leave_namespace()") < init.index(enter_main),
+         "__init__: namespace set-up order changed")
+    need(sum("_main_namespace" in ast.unparse(n) for n in ast.walk(tree) if isinstance(n, ast.Assign)) == (1 if main_in_root else 0),
+         "_main_namespace is assigned elsewhere")
     base_calls = [x for x in init[init.index("self._enter_namespace('__base__')"):init.index("self._leave_namespace()")] if "_new_class(" in x]
     need(len(base_calls) == 9, "__init__: %d built-in classes, the model has 9" % len(base_calls))
 
     # ---- lang.py: when names are created and looked up
-    ltree, _ = parse_file("textx/lang.py")
     need(text_of(body_of(find_func(ltree, "textx_model"))) == "return (ZeroOrMore(import_or_reference_stm), OneOrMore(textx_rule), EOF)",
          "lang.textx_model: imports no longer precede the rules")
     expect_text(ltree, "visit_import_stm", "self.metamodel._new_import(children[0])", cls="TextXVisitor")
@@ -195,6 +219,53 @@ def translate():
     need("_(r'\\\\w+(\\\\.\\\\w+)*')" in ast.unparse(find_func(ltree, "rule_ref")) or "\\\\w+(\\\\.\\\\w+)*" in ast.unparse(find_func(ltree, "rule_ref")),
          "lang.rule_ref does not accept qualified names")
 
+    # ---- the load algorithm: what a nested load does before _new_import returns
+    mf = None
+    for n in tree.body:
+        if isinstance(n, ast.FunctionDef) and n.name == "metamodel_from_file":
+            mf = n
+    need(mf is not None, "metamodel_from_file not found")
+    need(text_of(body_of(mf)) == ("with open(file_name, encoding='utf-8') as f:\n    lang_desc = f.read()\n"
+                                  "metamodel = metamodel_from_str(lang_desc=lang_desc, file_name=file_name, **kwargs)\n"
+                                  "return metamodel"), "metamodel_from_file changed")
+    ms = [n for n in tree.body if isinstance(n, ast.FunctionDef) and n.name == "metamodel_from_str"]
+    need(len(ms) == 1 and text_of(body_of(ms[0])) == (
+        "is_main_metamodel = metamodel is None\nif not metamodel:\n    metamodel = TextXMetaModel(**kwargs)\n"
+        "file_name = kwargs.get('file_name')\nlanguage_from_str(lang_desc, metamodel, file_name)\n"
+        "if is_main_metamodel:\n    metamodel.validate_user_classes()\nreturn metamodel"), "metamodel_from_str changed")
+    lf = [ast.unparse(x) for x in body_of(find_func(ltree, "language_from_str"))]
+    both = "lang_parser = visit_parse_tree(parse_tree, TextXVisitor(parser, metamodel))"
+    first_only = "lang_parser = parse_tree.visit(TextXVisitor(parser, metamodel))"
+    second_inside = both in lf       # visit_parse_tree = both passes; a bare .visit() = first pass only (second pass deferred)
+    need(second_inside or first_only in lf, "language_from_str no longer runs the visitor on the grammar in a recognised way")
+    k = lf.index(both if second_inside else first_only)
+    need(any(x.startswith("try:\n    parse_tree = parser.parse(language_def, file_name)") for x in lf[:k]), "language_from_str: parse step changed")
+    need(lf[k + 1:k + 4] == ["metamodel.validate()", "lang_parser.metamodel = metamodel", "metamodel._parser_blueprint = lang_parser"]
+         and lf[-1] == "return lang_parser", "language_from_str: steps after the visitor changed")
+    # Arpeggio (dependency): visit_parse_tree = first pass, then every recorded second_* action;
+    # a non-terminal visits its children left to right before its own action
+    import importlib.util
+    spec = importlib.util.find_spec("arpeggio")
+    need(spec is not None and spec.origin, "arpeggio not found")
+    with open(spec.origin, encoding="utf-8") as f:
+        atree = ast.parse(f.read())
+    vpt = text_of(body_of(find_func(atree, "visit_parse_tree")))
+    need("result = parse_tree.visit(visitor)" in vpt and
+         "for sa_name, asg_node in visitor.for_second_pass:\n    getattr(visitor, 'second_%s' % sa_name)(asg_node)" in vpt
+         and vpt.index("result = parse_tree.visit(visitor)") < vpt.index("for sa_name, asg_node in visitor.for_second_pass")
+         and vpt.rstrip().endswith("return result"), "arpeggio.visit_parse_tree changed")
+    pv = text_of(body_of(find_func(atree, "visit", "ParseTreeNode")))
+    loop = ("if isinstance(self, NonTerminal):\n    for node in self:\n        child = node.visit(visitor)\n"
+            "        if child is not None:\n            children.append_result(node.rule_name, child)")
+    need(loop in pv and "result = getattr(visitor, visit_name)(self, children)" in pv and pv.index(loop) < pv.index("result = getattr(visitor, visit_name)(self, children)"),
+         "arpeggio ParseTreeNode.visit no longer visits children in order before the node")
+    need("if hasattr(visitor, 'second_%s' % self.rule_name):\n        visitor.for_second_pass.append((self.rule_name, result))" in pv,
+         "arpeggio ParseTreeNode.visit no longer records second-pass actions")
+    need(text_of(body_of(find_func(ltree, "import_or_reference_stm"))) == "return [import_stm, reference_stm]", "lang.import_or_reference_stm changed")
+    need(text_of(body_of(find_func(ltree, "import_stm"))) == "return ('import', grammar_to_import)", "lang.import_stm changed")
+    expect_text(ltree, "visit_grammar_to_import", "return str(node)", cls="TextXVisitor")
+    text_order = True         # import statements are visited left to right, before the rules
+
     b2c = lambda x: "true" if x else "false"
     emit("SrcImports", "\n".join([
         "From TxV Require Import Core.Base.",
@@ -203,10 +274,20 @@ def translate():
         "Definition lookup_steps : list lstep := [%s]." % "; ".join(steps),
         "Definition qualified_split_last : bool := %s." % b2c(split_last),
         "Definition normalise_import : bool := %s." % b2c(normalise),
+        "(* the folder of the MAIN grammar is the root whatever its file name is (dots in the name) *)",
+        "Definition main_in_root : bool := %s." % b2c(main_in_root),
         "Definition register_import_always : bool := %s." % b2c(always),
         "Definition initial_imports : list (list N) := [%s]." % "; ".join(coq_codes(x) for x in initial),
         "Definition fqn_bare : list (list N) := [%s]." % "; ".join(coq_codes(x) for x in bare),
         "Definition fqn_sep : list N := %s." % coq_codes(sep),
         "Definition fqn_ns_whole : bool := %s." % b2c(whole),
+        "(* the nested load inside _new_import's load-once branch, in statement order *)",
+        "Inductive nop := NEnter | NLoad | NLeave.",
+        "Definition nested_ops : list nop := [%s]." % "; ".join(nested_ops),
+        "(* metamodel_from_file -> metamodel_from_str -> language_from_str -> arpeggio.visit_parse_tree:",
+        "   both passes of the imported grammar run before _new_import returns *)",
+        "Definition second_pass_inside_import : bool := %s." % b2c(second_inside),
+        "(* import statements are visited in textual order, before the rule names of the file *)",
+        "Definition imports_in_text_order : bool := %s." % b2c(text_order),
     ]) + "\n")
     return []
